@@ -36,16 +36,20 @@ def run(ctx):
         ctx.violation(dict(stage="coq", kind="proof obligation or audit failed", issues=r["issues"]), has_input=False)
     now = int(time.time())
     cases, meta = [], []
-    def add(kind, method, path, q, headers, expect, t_iso, raw_query=None):
+    def add(kind, method, path, q, headers, expect, t_iso, raw_query=None, h2=None):
         rq = S.query_string(q) if raw_query is None else raw_query
         uri = pct(path.encode()) + "?" + rq
-        cases.append(dict(config=dict(host=None, auth={S.AK: S.SK}, access="allow", route="none"),
-                          request=dict(method=method, uri=hexs(uri), headers=[[n, hexs(v)] for n, v in headers], body=None)))
-        meta.append((kind, method, path, rq, headers, expect))
+        req = dict(method=method, uri=hexs(uri if h2 is None else "http://" + h2 + uri), headers=[[n, hexs(v)] for n, v in headers], body=None)
+        if h2 is not None:
+            req["version"] = "2"            # HTTP/2: the URI carries the authority; a host header may or may not be there
+        cases.append(dict(config=dict(host=None, auth={S.AK: S.SK}, access="allow", route="none"), request=req))
+        meta.append((kind, method, path, rq, headers, expect, h2))
     nbase = 10 if ctx.quick else 120
     for _ in range(nbase):
         method = rng.choice(["GET", "GET", "PUT", "DELETE", "HEAD"])
         key = gen_key(rng)[:80]
+        if _ < 3:
+            key = ["my%20file", "a%2Fb/c%41", "100%/50%25off"][_]      # keys that contain what looks like an escape
         path = "/my-bucket/" + key
         extra = rng.choice([[], [("versionId", "v1")], [("response-content-type", "text/plain")], [("x-foo", "a b")], [("é", "1")],
                             [("p", "1"), ("p", "2")], [("x-id", "GetObject"), ("p", "v"), ("p", "v")]])     # a repeated name is signed once per occurrence
@@ -90,10 +94,28 @@ def run(ctx):
         mut("signed-headers", [(k, v + ";x-extra") if k == "X-Amz-SignedHeaders" else (k, v) for k, v in q], headers=headers + [("x-extra", "1")])
         sg = dict(q)["X-Amz-Signature"]; i = rng.below(64); c2 = rng.choice([x for x in "0123456789abcdef" if x != sg[i]])
         mut("signature", [(k, sg[:i] + c2 + sg[i + 1:]) if k == "X-Amz-Signature" else (k, v) for k, v in q])
+        # rearrangements of the right signature (same characters, other order) and changes that cancel in a sum or an exclusive-or
+        def resig(kind, sg2):
+            if sg2 != sg:
+                mut(kind, [(k, sg2) if k == "X-Amz-Signature" else (k, v) for k, v in q])
+        resig("signature-blocks-exchanged", sg[8:16] + sg[:8] + sg[16:])
+        resig("signature-halves-exchanged", sg[32:] + sg[:32])
+        resig("signature-rotated", sg[8:] + sg[:8])
+        resig("signature-reversed", sg[::-1])
+        resig("signature-sorted", "".join(sorted(sg)))
+        j = rng.below(56)
+        resig("signature-two-characters-exchanged", sg[:j] + sg[j + 8] + sg[j + 1:j + 8] + sg[j] + sg[j + 9:])
+        resig("signature-neighbours-exchanged", sg[:j] + sg[j + 1] + sg[j] + sg[j + 2:])
+        fl = lambda ch: "0123456789abcdef"[int(ch, 16) ^ 1]
+        resig("signature-same-bit-twice", sg[:j] + fl(sg[j]) + sg[j + 1:j + 8] + fl(sg[j + 8]) + sg[j + 9:])
         mut("signature-short", [(k, sg[:40]) if k == "X-Amz-Signature" else (k, v) for k, v in q])
         mut("signature-upper", [(k, sg.upper()) if k == "X-Amz-Signature" else (k, v) for k, v in q])
         mut("method", method={"GET": "PUT", "PUT": "GET", "DELETE": "GET", "HEAD": "GET"}[method])
         mut("path", path=path + "x")
+        other = key.replace("%20", " ").replace("%2F", "/").replace("%41", "A").replace("%25", "%")
+        if other != key:
+            # the key with what looks like an escape read as the character it would denote is another key
+            mut("path-escape-read-as-character", path="/my-bucket/" + other)
         mut("add-param", q + [("added", "1")])
         if extra:
             # another occurrence of a signed parameter, in front of it or behind it
@@ -102,16 +124,21 @@ def run(ctx):
             mut("change-param", [(k, v + "x") if k == extra[0][0] else (k, v) for k, v in q])
             mut("drop-param", [p for p in q if p[0] != extra[0][0]])
         mut("signed-header-value", headers=[(n, v + "x") if n == "host" else (n, v) for n, v in headers])
+        # HTTP/2: the authority stands in for a signed host header only when the request has none
+        add("h2:authority-for-missing-host", method, path, q, [h for h in headers if h[0] != "host"], "accept", iso, h2="s3.example.com")
+        add("h2:host-header-present", method, path, q, headers, "accept", iso, h2="s3.example.com")
+        add("mut:h2-host-header-changed", method, path, q, [(n, "other.example.com") if n == "host" else (n, v) for n, v in headers], "reject", iso, h2="s3.example.com")
+        add("mut:h2-authority-changed-no-host", method, path, q, [h for h in headers if h[0] != "host"], "reject", iso, h2="other.example.com")
     t_send = time.time()
     res = vlib.run_impl("svc", cases)
     t_done = time.time()
     impl = [observe(x) for x in res]
     now_ns = int((t_send + t_done) / 2 * 1e9)
-    exprs = ["show_check (v4_check sha256 AUTH epoch_of_iso %s None %d%%Z)" % (coq_sigreq(m, pct(p.encode()), rq, hs, b""), now_ns)
-             for (kind, m, p, rq, hs, expect) in meta]
+    exprs = ["show_check (v4_check sha256 AUTH epoch_of_iso %s None %d%%Z)" % (coq_sigreq(m, pct(p.encode()), rq, hs, b"", h2=h2), now_ns)
+             for (kind, m, p, rq, hs, expect, h2) in meta]
     model = [m.decode("utf8", "replace") for m in vlib.run_model("C06", IMPORTS, exprs, shard=20, prelude=PRELUDE)]
     nd = 0
-    for (kind, m, p, rq, hs, expect), c, r_, i, mo in zip(meta, cases, res, impl, model):
+    for (kind, m, p, rq, hs, expect, h2), c, r_, i, mo in zip(meta, cases, res, impl, model):
         ctx.cov["evaluations"] += 1
         ctx.count(kind.split(":")[0] + "." + ("accept" if i.startswith("accept") else "reject"))
         ctx.nontrivial((kind, i))
